@@ -205,7 +205,10 @@ def mxint2bitstore(f: Union[str, float]) -> BitStore:
 
 
 def int2bitstore(i: int, length: int, signed: bool) -> BitStore:
-    i = int(i)
+    try:
+        i = int(i)
+    except OverflowError:
+        raise bitstring.CreationError(f"Cannot use {i} as an integer initialiser.")
     try:
         x = BitStore(bitarray.util.int2ba(i, length=length, endian='big', signed=signed))
     except OverflowError as e:
